@@ -693,22 +693,28 @@ Proof.
   repeat (split; [reflexivity|]). lia.
 Qed.
 
-Lemma disk_commit_ok r0 l st d force :
-  CInv r0 l st -> ix st = None ->
+(* the part of diskLayer.commit after writeHistory, for any outcome of the indexer *)
+Lemma disk_commit_from_wh r0 l st d force st1 fl tail' :
+  CInv r0 l st ->
   d_id d = len l + 1 -> d_root d = t_root (d_tr d) -> wf_tr (sem_rev l) (d_tr d) ->
+  write_history st d = WOk st1 fl ->
+  dk st1 = dk st -> ids st1 = ids st -> cfg st1 = cfg st -> wait_sync st1 = wait_sync st ->
+  diffs st1 = diffs st ->
+  fr st1 = mkFrz tail' (d_id d)
+             (updN (fr_data (fr st)) (d_id d)
+                   (Some (mk_history (disk_root (dk st)) (d_root d) (t_changes (d_tr d))))) ->
+  fr_tail (fr st) <= tail' -> tail' <= d_id d ->
   exists st', disk_commit st d force = Done st' /\ CInv r0 (d_tr d :: l) st' /\
               cfg st' = cfg st /\ wait_sync st' = wait_sync st /\ diffs st' = diffs st /\
-              ix st' = None.
+              ix st' = ix st1 /\ fr st' = fr st1.
 Proof.
-  intros C Hix Hid Hroot W.
-  destruct (write_history_ok r0 l st d C Hix Hid)
-    as [st1 [fl [tail' [Hw [Edk [Eids [Ecfg [Ews [Ediffs [Eix [Efr [Ht1 Ht2]]]]]]]]]]]].
+  intros C Hid Hroot W Hw Edk Eids Ecfg Ews Ediffs Efr Ht1 Ht2.
   destruct C as [R Hh Ht]. destruct R as [D Hhl F Wc I].
   destruct (commit_disk_ok r0 l (dk st) d (cfg_full (cfg st) || force || fl) D W Hid Hroot)
     as [o' [Ho' D']].
   unfold disk_commit. rewrite Hw. rewrite Edk, Ho'.
-  eexists. split; [reflexivity|]. simpl. rewrite Ecfg, Ews, Ediffs, Eix.
-  split; [|auto].
+  eexists. split; [reflexivity|]. simpl. rewrite Ecfg, Ews, Ediffs.
+  split; [|auto 10].
   assert (Hlen : len (d_tr d :: l) = d_id d) by (rewrite len_cons; lia).
   constructor; [constructor| |]; simpl.
   - exact D'.
@@ -736,6 +742,21 @@ Proof.
     + apply (ids_ok_weaken r0 (ids st)); [exact Hm|exact I].
   - rewrite Efr. simpl. symmetry. exact Hlen.
   - rewrite Efr. simpl. exact Ht2.
+Qed.
+
+Lemma disk_commit_ok r0 l st d force :
+  CInv r0 l st -> ix st = None ->
+  d_id d = len l + 1 -> d_root d = t_root (d_tr d) -> wf_tr (sem_rev l) (d_tr d) ->
+  exists st', disk_commit st d force = Done st' /\ CInv r0 (d_tr d :: l) st' /\
+              cfg st' = cfg st /\ wait_sync st' = wait_sync st /\ diffs st' = diffs st /\
+              ix st' = None.
+Proof.
+  intros C Hix Hid Hroot W.
+  destruct (write_history_ok r0 l st d C Hix Hid)
+    as [st1 [fl [tail' [Hw [Edk [Eids [Ecfg [Ews [Ediffs [Eix [Efr [Ht1 Ht2]]]]]]]]]]]].
+  destruct (disk_commit_from_wh r0 l st d force st1 fl tail' C Hid Hroot W Hw Edk Eids Ecfg Ews Ediffs Efr Ht1 Ht2)
+    as [st' [A [B [E1 [E2 [E3 [E4 _]]]]]]].
+  exists st'. rewrite E4, Eix. auto 10.
 Qed.
 
 (* reverting the newest history restores the disk layer of before the transition *)
@@ -780,7 +801,7 @@ Definition ex_t3 : transition :=
   mkTr 3 [mkChange (KA 0) 0 8; mkChange (KS 0 2) 0 9; mkChange (KA 1) 6 10].  (* re-create *)
 
 Definition ex_db : db :=
-  let c := mkCfg 0 false 128 in
+  let c := mkCfg 0 false 128 false false false in
   let s0 := init_db c 0 false in
   let s1 := outcome_state (update s0 0 ex_t1) in
   let s2 := outcome_state (update s1 1 ex_t2) in
